@@ -83,7 +83,8 @@ type opSpec struct {
 	Seq    uint32 `json:"seq,omitempty"`
 	Access uint32 `json:"acc,omitempty"`
 	Deny   uint32 `json:"deny,omitempty"`
-	How    string `json:"how,omitempty"` // nocreate, unchecked, unchecked_trunc, unchecked_size3, guarded, guarded_size3, exclusive
+	Claim  string `json:"claim,omitempty"` // "" (CLAIM_NULL), previous, previous_deleg, delegate_cur, delegate_prev
+	How    string `json:"how,omitempty"`   // nocreate, unchecked, unchecked_trunc, unchecked_size3, guarded, guarded_size3, exclusive
 
 	Stateid sid `json:"sid,omitempty"`
 
@@ -174,6 +175,21 @@ func buildCompound(o *opSpec) *nfsv4.Compound4args {
 		default:
 			panic("harness: unknown open how " + o.How)
 		}
+		var claim nfsv4.OpenClaim4
+		switch o.Claim {
+		case "":
+			claim = &nfsv4.OpenClaim4_CLAIM_NULL{File: o.Name}
+		case "previous":
+			claim = &nfsv4.OpenClaim4_CLAIM_PREVIOUS{DelegateType: nfsv4.OPEN_DELEGATE_NONE}
+		case "previous_deleg":
+			claim = &nfsv4.OpenClaim4_CLAIM_PREVIOUS{DelegateType: nfsv4.OPEN_DELEGATE_READ}
+		case "delegate_cur":
+			claim = &nfsv4.OpenClaim4_CLAIM_DELEGATE_CUR{DelegateCurInfo: nfsv4.OpenClaimDelegateCur4{DelegateStateid: o.Stateid.wire(), File: o.Name}}
+		case "delegate_prev":
+			claim = &nfsv4.OpenClaim4_CLAIM_DELEGATE_PREV{FileDelegatePrev: o.Name}
+		default:
+			panic("harness: unknown claim " + o.Claim)
+		}
 		ops = append(fhOps(o.FH),
 			&nfsv4.NfsArgop4_OP_OPEN{Opopen: nfsv4.Open4args{
 				Seqid:       o.Seq,
@@ -181,7 +197,7 @@ func buildCompound(o *opSpec) *nfsv4.Compound4args {
 				ShareDeny:   o.Deny,
 				Owner:       nfsv4.OpenOwner4{Clientid: o.ClientID, Owner: []byte(o.Owner)},
 				Openhow:     how,
-				Claim:       &nfsv4.OpenClaim4_CLAIM_NULL{File: o.Name},
+				Claim:       claim,
 			}},
 			&nfsv4.NfsArgop4_OP_GETFH{})
 	case kOpenConfirm:
